@@ -127,6 +127,7 @@ func runC20(p *Prog, r *Report, tier string) {
 	r.Trusted = r.Assumptions
 
 	externalAllowObligation(p, r, "P-external", "it may panic on some argument (only the tabled constructors have precondition rules)")
+	initOnlyObligation(p, r, "P-external")
 	entries := p.c20Entries()
 	for name, fn := range entries {
 		if fn == nil {
@@ -141,6 +142,7 @@ func runC20(p *Prog, r *Report, tier string) {
 	// the widths of open-ended tail fields rest on the exact-length contracts of the Parse functions
 	parseContracts(p, r)
 
+	loopObligations(p, r, reach)
 	sites := p.panicSites(reach)
 	// the command-line client: what a command does with its address arguments before (or
 	// instead of) handing them to parseAddress — slicing, indexing or converting a string or
@@ -817,6 +819,24 @@ func checkCtors(p *Prog, r *Report, reach map[*ssa.Function]bool, fc func(*ssa.F
 					recv := c.x.Of(args[0], call).String()
 					r.check(lf.min >= 32 && strings.HasPrefix(recv, "(sdkmath.Int).BigInt("), "P-ctor", key("FillBytes"), pos, "32-byte buffer for a math.Int (<= 256 bits by type invariant)",
 						fmt.Sprintf("FillBytes panics when the value does not fit: buffer len >= %d, receiver %s", lf.min, recv))
+				case name == "sdkmath.NewIntFromBigInt":
+					n++
+					// panics when the value needs more than 256 bits: the argument is SetBytes of at most 32 bytes,
+					// or the BigInt() of a math.Int
+					okN, why := false, "argument is not SetBytes of a value of at most 32 bytes"
+					if sb, ok := args[0].(*ssa.Call); ok {
+						if cal := sb.Call.StaticCallee(); cal != nil {
+							switch funcName(cal) {
+							case "(*math/big.Int).SetBytes":
+								lf := c.lenOf(sb.Call.Args[1], sb, plens)
+								okN = lf.max >= 0 && lf.max <= 32
+								why = fmt.Sprintf("SetBytes of a value whose length is at most %d (need <= 32; %s)", lf.max, lf.why)
+							case "(sdkmath.Int).BigInt":
+								okN = true
+							}
+						}
+					}
+					r.check(okN, "P-ctor", key("NewIntFromBigInt"), pos, "value of at most 256 bits", "math.NewIntFromBigInt panics above 256 bits: "+why)
 				case strings.Contains(name, "Endian).AppendUint"):
 					// appends: never indexes its argument
 				case strings.HasPrefix(name, "(encoding/binary.bigEndian).") || strings.HasPrefix(name, "(encoding/binary.littleEndian)."):
@@ -912,6 +932,31 @@ func (c *FC) ptrNonNilV(v ssa.Value, at ssa.Instruction, depth int, seen map[ssa
 		}
 	case *ssa.ChangeType:
 		return c.ptrNonNilV(o.X, at, depth+1, seen)
+	case *ssa.Extract:
+		call, ok := o.Tuple.(*ssa.Call)
+		if !ok {
+			return true, ""
+		}
+		callee := call.Call.StaticCallee()
+		if callee == nil || call.Call.IsInvoke() || !c.p.inModuleCode(callee) || callee.Blocks == nil {
+			return true, "result of code outside the module (not judged)"
+		}
+		tup := call.Type().(*types.Tuple)
+		if o.Index == 0 && tup.Len() == 2 && isErrorType(tup.At(1).Type()) {
+			return true, "(pointer, error) result: P-deref/result rule"
+		}
+		cc := c.p.fc(c.r, callee, funcName(callee), nil)
+		for _, ret := range allReturns(callee) {
+			if o.Index >= len(ret.Results) {
+				continue
+			}
+			if ok, why := cc.ptrNonNilV(ret.Results[o.Index], ret, depth+1, map[ssa.Value]bool{}); !ok {
+				if guarded() {
+					return true, "behind a != nil test"
+				}
+				return false, fmt.Sprintf("%s can return nil as result %d (%s) and it is dereferenced without a nil test", funcName(callee), o.Index, why)
+			}
+		}
 	}
 	return true, "address computation, parameter, loaded value or non-nil by construction"
 }
